@@ -43,9 +43,9 @@ PROPS = {
     "C07": dict(suites={"plan": dict(fields=LAYOUT, oracles=["isolated"]),
                         "exec": dict(fields=XLAYOUT, oracles=["no_overlap", "inside", "borrow_panic", "par_eq_seq(world)", "par_eq_seq(states)",
                                                               "once", "preds_done", "unexpected_panic"], kf1=True)}),
-    "C06": dict(sd=True, suites={"sysdata": dict(fields=["reads", "writes", "fetch", "alive", "after", "setup", "setupok", "setup-calls", "driver-exception"],
+    "C06": dict(sd=True, suites={"sysdata": dict(fields=["reads", "writes", "fetch", "alive", "after", "setup", "setupok", "setup-calls", "exec", "driver-exception"],
                                                  oracles=["declared_equals_borrowed", "conflicting_members_fetched", "released_after_drop", "setup_keeps_existing",
-                                                          "setup_default_value", "setup_idempotent", "setup_composes"])}),
+                                                          "setup_default_value", "setup_idempotent", "setup_composes", "exec_releases", "exec_panic_propagates"])}),
     "C08": dict(sd=True, suites={"world": dict(fields=["outcome", "probe", "ledger", "end", "driver-exception"],
                                       oracles=["fail_preserves", "none_iff_absent", "borrow_class"]),
                         "meta": dict(fields=["outcome", "driver-exception"], oracles=["iter_borrow_discipline"]),
